@@ -14,10 +14,20 @@ META = {
                     "punchwalk: the extent API behaves as the model in punchwalk.c (goto lands on the holding / next-lowest / lowest "
                     "extent, NEXT_SIB stops at the end of a leaf, NEXT_LEAF crosses, position undefined after delete until goto)",
                     "punch_ind: block numbers are fixed distinct tokens, presence of each slot symbolic; slots >= K "
-                    "of every indirect block are zero"],
+                    "of every indirect block are zero",
+                    "bmap_alloc: the blocks along the target's (and the probe's) path are pairwise distinct and a block on both paths sits "
+                    "at the same tree position; the allocator (get_alloc_block callback) always succeeds and hands out blocks on neither "
+                    "path; block size scaled to 16 bytes; huge_file + EXT4_HUGE_FILE_FL so that i_blocks counts filesystem blocks",
+                    "alloc_search / alloc_stats: the bitmap primitives (find_first_zero / find_first_set / mark / unmark / range) behave as "
+                    "gen_bitmap64.c documents over one symbolic word (decided under C16); ext2fs_group_desc_csum_set only records the group; "
+                    "alloc_stats ranges "
+                    "start at or after s_first_data_block"],
     "outside": ["histories are covered only through the inductive step on the handle invariant (fileio); of the mapping "
                 "layer only bmap.c is encoded (bmap_ind: block-mapped lookup/BMAP_SET; bmap_cluster: extent_bmap + "
-                "implied_cluster_alloc over a table); BMAP_ALLOC through indirect blocks is not encoded",
+                "implied_cluster_alloc over a table; bmap_alloc: BMAP_ALLOC / BMAP_ALLOC|BMAP_SET through indirect blocks with 4 addresses per "
+                "block); allocation failure in the middle of a multi-block allocation (mapping block allocated, data block refused: the "
+                "in-memory inode keeps the new mapping block without i_blocks), BMAP_ZERO, NULL block_buf, big-endian byte swapping "
+                "(WORDS_BIGENDIAN) are not encoded",
                 "extent.c: the real code is decided only at depth 0 (setbmap0: one ext2fs_extent_set_bmap on a root of 0..3 "
                 "extents); node splits (extent_node_split, ext2fs_alloc_block), trees of depth >= 1 (index nodes, leaf I/O, "
                 "fix_parents going up, leaf removal in ext2fs_extent_delete) are NOT encoded: the real extent.c at depth 1 "
@@ -25,7 +35,11 @@ META = {
                 "ext2fs_punch_extent is decided over a leaf-aware MODEL of the extent API (punchwalk), not over extent.c; "
                 "the release of emptied leaf blocks and its i_blocks update happen inside extent.c and are not covered; bigalloc "
                 "punching beyond punch_ext_blocks' release arithmetic",
-                "allocator (alloc.c, alloc_stats.c bitmap/group accounting), mkjournal.c",
+                "allocator: ext2fs_new_block3 / ext2fs_new_range / ext2fs_alloc_range are decided over <= 16 blocks at cluster ratio 1 "
+                "(alloc_search), ext2fs_alloc_block3 only with a get_alloc_block callback (bmap_alloc), alloc_stats.c at ratio 1 "
+                "(alloc_stats); bigalloc (cluster-granular bitmaps, the inuse*n/ratio arithmetic of ext2fs_block_alloc_stats_range), "
+                "64-bit / flex_bg descriptors, ext2fs_new_inode, ext2fs_get_free_blocks2, the get_alloc_block2 / new_range callbacks, "
+                "the real bitmap back ends under the allocator, mkjournal.c",
                 "fallocate.c: only ext_falloc_helper()+claim_range() are decided (falloc_helper), under the contract extent_fallocate() "
                 "establishes (left ends at range_start, right starts at range_end+1, the range is a hole) which is ASSUMED, not proved: "
                 "the extent walk extent_fallocate(), ext2fs_fallocate()'s argument checks and its block-mapped (bmap2 loop) branch are "
@@ -195,6 +209,80 @@ HARNESSES += [
          bound="extents spread over two leaves (1+1 quick; 2+1, 1+2, 2+2 thorough), gaps 0..3, lengths 1..4, either state, disjoint "
                "physical ranges; ext2fs_punch(start, end) with start 0..31, end = start+0..15 or ~0; ratio 1"),
 ]
+# ---- on-demand allocation through indirect blocks (bmap.c + alloc.c ext2fs_alloc_block3) ----
+BMAP_ALLOC_UW = main_loops(60, 17) + ["%s.%d:17" % (f, i) for f in ("vf_read_blk", "vf_write_blk", "stub_get_alloc_block",
+                                                                      "stub_block_alloc_stats2", "ref_slot", "ref_walk") for i in range(4)]
+HARNESSES += [
+    dict(name="bmap_alloc", src="bmap_alloc.c",
+         funcs=["ext2fs_bmap2", "block_ind_bmap", "block_dind_bmap", "block_tind_bmap", "ext2fs_alloc_block3", "ext2fs_alloc_block",
+                "ext2fs_iblk_add_blocks", "ext2fs_find_inode_goal", "io_channel_write_blk64", "ext2fs_file_block_offset_too_big"],
+         extra_src=["lib/ext2fs/i_block.c", "lib/ext2fs/blknum.c", "lib/ext2fs/io_manager.c"],
+         configs=[{"OP": 1, "LEVEL": 3}, {"OP": 1, "LEVEL": 2}, {"OP": 1, "LEVEL": 1}, {"OP": 1, "LEVEL": 0},
+                  {"OP": 2, "LEVEL": 3}, {"OP": 2, "LEVEL": 2}, {"OP": 2, "LEVEL": 1}, {"OP": 2, "LEVEL": 0}, {"OP": 0}],
+         stubs=["ext2fs_extent_free"],
+         unwind=6, unwindset=BMAP_ALLOC_UW, backends=["default", "kissat"], cap_quick=300, cap_thorough=1200,
+         bound="4 addresses per block (fs->blocksize 16), disk of 12 blocks with symbolic contents (every pointer 0 or < 12), i_block[] "
+               "symbolic; target and probe: any two different logical blocks of the 96 the triple-indirect range holds; one ext2fs_bmap2 "
+               "with BMAP_ALLOC, BMAP_ALLOC|BMAP_SET, or no flag; up to 4 allocations, the allocator always succeeds"),
+]
+# ---- allocation accounting (alloc_stats.c) ----
+HARNESSES += [
+    dict(name="alloc_stats", src="alloc_stats.c",
+         funcs=["ext2fs_block_alloc_stats2", "ext2fs_bg_free_blocks_count_set", "ext2fs_bg_flags_clear", "ext2fs_free_blocks_count_add",
+                "ext2fs_group_of_blk2"],   # first config; OP 2 adds ext2fs_block_alloc_stats_range + ext2fs_group_last_block2, OP 3 ext2fs_inode_alloc_stats2
+         extra_src=["lib/ext2fs/blknum.c"],
+         stubs=["ext2fs_mark_generic_bmap", "ext2fs_unmark_generic_bmap", "ext2fs_mark_block_bitmap_range2", "ext2fs_unmark_block_bitmap_range2"],
+         configs=[{"OP": 1, "INUSE": 1}, {"OP": 1, "INUSE": -1}, {"OP": 2, "INUSE": 1}, {"OP": 2, "INUSE": -1},
+                  {"OP": 3, "INUSE": 1}, {"OP": 3, "INUSE": -1}, {"OP": 1, "INUSE": 1, "WITH_CB": None}, {"OP": 2, "INUSE": 1, "WITH_CB": None},
+                  {"OP": 2, "INUSE": -1, "WITH_CB": None}],
+         # (repaired by fix: 4b276575) {"OP": 2, "INUSE": 1, "WITH_CB": None} FAILED on the pinned tree: the callback registered with
+         #   ext2fs_set_block_alloc_stats_range_callback() is called with the loop's consumed cursor (blk = end of range, num = 0)
+         #   instead of the range: e.g. blocks_count 4, ext2fs_block_alloc_stats_range(fs, 1, 1, +1) -> callback(fs, 2, 0, 1)
+         unwind=6, unwindset=main_loops(12, 15) + ["ext2fs_mark_block_bitmap_range2.0:14", "ext2fs_unmark_block_bitmap_range2.0:14",
+                                                   "ext2fs_block_alloc_stats_range.0:6"],
+         backends=["default", "kissat"], cap_quick=300,
+         bound="2..12 blocks in groups of 4 (range may cross two group boundaries), up to 3 groups of 4 inodes, s_first_data_block 0 / 1, "
+               "cluster ratio 1, group checksums on; bitmaps, all group counters / flags, superblock totals and the block / range / "
+               "inode number symbolic; one call, direction +1 and -1"),
+]
+# ---- allocator searches (alloc.c) ----
+def alloc_search_uw(nb, cap):
+    return main_loops(8, nb + 2) + ["ext2fs_find_first_zero_generic_bmap.0:%d" % (nb + 1), "ext2fs_find_first_set_generic_bmap.0:%d" % (nb + 1),
+                                    "ext2fs_new_range.0:%d" % (cap + 2), "ext2fs_new_range.1:%d" % (cap + 2)]
+
+def alloc_search_cfgs():
+    # CAP = bound on the iterations of the search loop (find_first_zero queries) above which the harness reports non-termination:
+    # 3 needed without MIN_LENGTH or with FIXED_GOAL (CAP 4), NB+3 with MIN_LENGTH alone (CAP NB+4)
+    def q(d, nb=8):
+        minonly = (d["OP"] == 2 and d["FLAGS"] == 2) or (d["OP"] == 3 and not d["FLAGS"] & 1)
+        cap = nb + 4 if minonly else 4
+        return dict(d, NB=nb, CAP=cap, _unwindset=alloc_search_uw(nb, cap))
+    c = [q({"OP": 1, "CSUM": None}), q({"OP": 1})]
+    # new_range: FLAGS 0, FIXED_GOAL (1), FIXED_GOAL|MIN_LENGTH (3); MIN_LENGTH alone (2)
+    c += [q({"OP": 2, "FLAGS": 0, "CSUM": None}), q({"OP": 2, "FLAGS": 1, "CSUM": None}), q({"OP": 2, "FLAGS": 3, "CSUM": None}),
+          q({"OP": 2, "FLAGS": 2, "CSUM": None}, 6)]
+    # (repaired by fix: b638a7fe) q({"OP": 2, "FLAGS": 2, "CSUM": None}, 6) FAILED on the pinned tree: "the free-space search terminates"
+    #   counterexample: blocks_count 6, first_data_block 1, only block 3 free, goal 4 (or any goal), len 2, MIN_LENGTH:
+    #   find_first_zero(4..5) ENOENT -> start = 1 -> finds 3, run too short -> start = 4 -> ENOENT -> start = 1 -> ... for ever
+    # alloc_range always passes MIN_LENGTH: FIXED_GOAL (1), FIXED_GOAL|ZERO (3) and 0 / ZERO (2)
+    c += [q({"OP": 3, "FLAGS": 1}), q({"OP": 3, "FLAGS": 3}), q({"OP": 3, "FLAGS": 0}, 6),
+          q({"OP": 3, "FLAGS": 2, "_tier": "thorough"}, 6)]
+    # (q({"OP": 3, "FLAGS": 0}, 6) failed for the same reason)
+    c += [dict(q(d, 16 if d["CAP"] == 4 else 8), _tier="thorough") for d in list(c) if d["OP"] != 3 and "CSUM" in d]
+    return c
+
+HARNESSES += [
+    dict(name="alloc_search", src="alloc_search.c",
+         funcs=["ext2fs_new_block3", "ext2fs_clear_block_uninit", "ext2fs_group_of_blk2", "ext2fs_blocks_count",
+                "ext2fs_bg_flags_test", "ext2fs_bg_flags_clear"],   # first config; OP 2 adds ext2fs_new_range, OP 3 ext2fs_alloc_range
+         extra_src=["lib/ext2fs/blknum.c"], stubs=["ext2fs_find_first_zero_generic_bmap", "ext2fs_find_first_set_generic_bmap"],
+         configs=alloc_search_cfgs(), unwind=6, unwindset=alloc_search_uw(8, 4),
+         backends=["default", "kissat"], cap_quick=300, cap_thorough=1200,
+         bound="filesystem of 2..8 blocks (thorough: 2..16), 4 blocks per group, s_first_data_block 0 / 1, cluster ratio 1; bitmap "
+               "content, 64-bit goal, len 0 .. 2^32-1, BLOCK_UNINIT of every group symbolic; one call of ext2fs_new_block3 / "
+               "ext2fs_new_range (flags 0, FIXED_GOAL, FIXED_GOAL|MIN_LENGTH, MIN_LENGTH alone) / "
+               "ext2fs_alloc_range (with and without FIXED_GOAL / ZERO_BLOCKS)"),
+]
 MANIFEST = {
     "text": "Bounded-exhaustive kernels of the libext2fs file data path: (1) one real file-handle operation "
             "(read/write/llseek/flush/set_size/close) from every handle+mapping+disk state satisfying the buffer "
@@ -208,7 +296,17 @@ MANIFEST = {
             "an allocator answer with i_blocks in step, written extents well formed (length limits, order, cluster invariant); "
             "(6) one real ext2fs_extent_set_bmap() on every small depth-0 extent root: the set block gets exactly the requested "
             "mapping and state, every other block keeps its own, the root stays well formed and the handle consistent; (7) the real "
-            "ext2fs_punch_extent() walk over extents in two leaves: exactly the blocks in range are unmapped and released once.",
+            "ext2fs_punch_extent() walk over extents in two leaves: exactly the blocks in range are unmapped and released once; "
+            "(8) one real ext2fs_bmap2() with BMAP_ALLOC (and BMAP_ALLOC|BMAP_SET, and no flag) on every small block-mapped tree "
+            "with symbolic disk contents: exactly the missing blocks of the target's path (mapping blocks + data) are allocated through "
+            "the real ext2fs_alloc_block3, zeroed before being accounted, linked in the slots the format defines, i_blocks grows by "
+            "exactly that number, every other disk block / i_block slot / logical block is untouched, a lookup allocates and writes nothing; "
+            "(9) the real free-space searches ext2fs_new_block3 / ext2fs_new_range / ext2fs_alloc_range on every bitmap of <= 8 (16) blocks: "
+            "the answer is the first admissible free block / run in cyclic order from the goal, free, inside the filesystem, of the length "
+            "the flags demand, and failure is reported exactly when none exists; (10) the real alloc_stats.c: bitmap bits, group free "
+            "counts, superblock totals, UNINIT flags and checksum marking move together for one block, one range across group boundaries "
+            "and one inode, in both directions.",
     "note": "Trusted: CBMC's C semantics, the mapping/allocator/inline-store stubs, the harness reference models. "
-            "The real mapping layer (bmap.c/extent.c), the allocator and whole-filesystem consistency are outside.",
+            "The real extent.c beyond depth 0, bigalloc allocation and whole-filesystem consistency are outside. Two defects these harnesses found are repaired "
+            "(known_findings.txt: b638a7fe ext2fs_new_range non-termination, 4b276575 range-callback arguments).",
 }
